@@ -710,6 +710,129 @@ def run(tier):
                     if g and g[0][0] == "INFO" and g[0][1].split("\t")[1:2] == [case["item"]]:
                         check_item(chk, report_f, (0, form, sel, data, tls, out), g, case["item"], it_, None, guess,
                                    default_mime, listing=True)
+    # ---------------- the requested OBJECT itself cannot be read: stat() succeeds (a handler is chosen, the size is
+    # known) but opening the document / listing the directory fails.  Whatever the server then sends must be
+    # self-consistent: the error reply alone, or a success reply whose length prefix counts the bytes that follow and
+    # whose body is what the fault-free reply carries ----------------
+    def pick(sels, n):
+        sels = list(sels)
+        rng.shuffle(sels)
+        return sorted(sels[:n])
+    allf = sorted(s_ for s_ in fitems if s_.startswith("/files/f"))
+    # both zero-byte documents, a few others of different sizes and sidecar sets
+    fdocs = [s_ for s_ in allf if s_[8:10] in ("00", "15")] + \
+        pick([s_ for s_ in allf if s_[8:10] not in ("00", "15")], 3 if tier == "quick" else 8)
+    t0_ = 1_700_000_000
+    dtree = list(gtree) + [
+        {"path": "zz/page.html", "data": "<html><head><title>A page</title></head><body>x</body></html>\n", "mtime": t0_},
+        {"path": "zz/tmpl.html.tal", "mtime": t0_,
+         "data": "<html><head><title>T</title></head><body tal:content=\"string:filled in\">y</body></html>\n"},
+        {"path": "zz/notes.txt.abstract", "data": "has an abstract\n", "mtime": t0_},
+        {"path": "zz/notes.txt", "data": "n\n" * 5000, "mtime": t0_},
+        {"path": "zz/sub", "kind": "dir", "mtime": t0_ + 5}, {"path": "zz/sub/in.txt", "data": "x\n", "mtime": t0_},
+    ]
+    dtree.sort(key=lambda e: (e.get("kind") != "dir", e["path"]))
+    ddocs = pick([s_ for s_, it_ in gitems.items() if it_["kind"] == "gz"], 3 if tier == "quick" else 7) + \
+        ["/zz/plain.txt", "/zz/page.html", "/zz/tmpl.html.tal", "/zz/notes.txt"]
+    DCFG = dict(FULL_CONFIG, **{"handlers.dir.DirHandler": {"cachetime": "0"}})
+    OPEN_FAULTS = ["eacces", "vanish", "eio", "emfile"]
+    LIST_FAULTS = ["eacces", "enoent", "emfile"]
+    # faults that begin only at a later open of the same path (after the server has already opened the document once)
+    late = [int(x) for x in os.environ.get("VERIF_C15_LATE_FAULTS", "").split(",") if x.strip()]
+    dfworlds = [("files", ftree, FCFG, fdocs, ["/files", "/dirs/d03"]), ("full", dtree, DCFG, ddocs, ["/zz", "/zz/sub"])]
+    dfjobs, dfmeta = [], []
+    for wname, tree_, cfg_, docs_, dirs_ in dfworlds:
+        cases_ = []
+        for oi, osel in enumerate(docs_ + dirs_):
+            isdir_ = osel in dirs_
+            proto = "sgopherplus" if oi % 3 == 2 else "gopherplus"
+            rq = []
+            for form in ("+", "$", "!"):
+                d_, t_ = gen.request_bytes(proto, osel, gplus=form)
+                rq.append((form, osel, d_, t_))
+            for fault in ["none"] + (LIST_FAULTS if isdir_ else OPEN_FAULTS):
+                for nth in [1] + ([] if fault == "none" or isdir_ else late):
+                    cases_.append({"fault": fault, "path": osel, "nth": nth, "call": "listdir" if isdir_ else "open",
+                                   "rq": rq, "world": wname, "isdir": isdir_,
+                                   "requests": [{"data": gen.lat(d_), "tls": t_} for _, _, d_, t_ in rq]})
+        dfjobs.append({"op": "c15_faults", "tree": tree_, "config": cfg_,
+                       "cases": [{k_: c_[k_] for k_ in ("fault", "path", "nth", "call", "requests")} for c_ in cases_]})
+        dfmeta.append(cases_)
+    dfres = impl_run_parallel(dfjobs, chunks=len(dfjobs))
+    for r in dfres:
+        if not r["ok"]:
+            raise RuntimeError(r["err"] + "\n" + r.get("tb", ""))
+
+    def split_reply(ob):
+        """(kind, n, body): kind error | success | None"""
+        head, sep_, body = ob.partition(b"\r\n")
+        m_ = re.fullmatch(rb"-(-1|-2|\d+)", head)
+        if m_ and sep_:
+            return "error", int(m_.group(1)), body
+        m_ = re.fullmatch(rb"\+(-?\d+)", head)
+        if m_ and sep_:
+            return "success", int(m_.group(1)), body
+        return None, None, ob
+
+    n_df_req, n_df_err, n_df_ok, n_df_noref = 0, 0, 0, 0
+    for (wname, tree_, cfg_, docs_, dirs_), cases_, r in zip(dfworlds, dfmeta, dfres):
+        refs = {}
+        for case, cres in zip(cases_, r["res"]["cases"]):
+            for (form, sel, data, tls), o in zip(case["rq"], cres["results"]):
+                ob = gen.mask_times(o["out"].encode("latin-1"))
+                if case["fault"] == "none":
+                    refs[(sel, form)] = ob
+                    continue
+                n_df_req += 1
+                chk.count(("objfault", wname, case["fault"], case["nth"], sel, form), nontrivial=True)
+                rk, rn, rbody = split_reply(refs.get((sel, form), b""))
+                if rk != "success" or (rn >= 0 and rn != len(rbody)) or (rn < 0 and rn != -2):
+                    n_df_noref += 1            # the fault-free reply is judged by the legs above
+                    continue
+                kind_, n_, body_ = split_reply(ob)
+                fname = {"+": "plus", "$": "dollar", "!": "info"}[form]
+                why = tag_ = None
+                if o["exc"] or not ob:
+                    why, tag_ = "no reply / an exception escapes: %s" % o["exc"], fname + "-first-line"
+                elif kind_ is None:
+                    why, tag_ = "first line is neither +<length> nor an error status", fname + "-first-line"
+                elif kind_ == "error":
+                    n_df_err += 1
+                    if n_ >= 0 and n_ != len(body_):
+                        why, tag_ = "length of the error reply differs from the number of bytes that follow", fname + "-length"
+                    elif not re.match(rb"\d+ ?[^\r\n]*\r\n", body_):
+                        why, tag_ = "error reply does not start with an error-code line", fname + "-first-line"
+                else:
+                    n_df_ok += 1
+                    if n_ >= 0 and n_ != len(body_):
+                        why, tag_ = "length prefix differs from the number of bytes that follow", fname + "-length"
+                    elif n_ < 0 and n_ != -2:
+                        why, tag_ = "length marker is neither a length nor -2", fname + "-first-line"
+                    elif body_ != rbody:
+                        why, tag_ = ("what follows the success status is not what the fault-free reply carries "
+                                     "(the document / listing / item information)"), fname + "-body"
+                if why:
+                    found = True
+                    tag_ += ":fault" if case["nth"] == 1 else ":late-fault"
+                    reported_tags.add(tag_)
+                    near = [e for e in tree_ if ("/" + e["path"] + "/").startswith(sel + "/") or
+                            ("/" + e["path"]).startswith(sel + ".") or (sel + "/").startswith("/" + e["path"] + "/")]
+                    if case["isdir"]:
+                        near = [e for e in near if len(e.get("data", "")) < 30000]
+                    chk.violation({"what": "while the requested %s cannot be %s (%s on %s, from call %d on): %s" % (
+                                       "directory" if case["isdir"] else "document", "listed" if case["isdir"] else "opened",
+                                       case["fault"], case["path"], case["nth"], why),
+                                   "fault": case["fault"], "fault_path": case["path"], "fault_nth": case["nth"],
+                                   "fault_call": case["call"], "form": form, "selector": sel,
+                                   "request_latin1": gen.lat(data), "tls": tls,
+                                   "response_latin1": ob.decode("utf-8", "surrogateescape")[:1500],
+                                   "fault_free_response_latin1": refs[(sel, form)].decode("utf-8", "surrogateescape")[:300],
+                                   "announced": n_, "body_bytes": len(body_),
+                                   "world": {"tree": near[:60], "config": cfg_}, "kind": "gplus-fault"}, tag=tag_)
+    cov["object_faults"] = {"documents": len(fdocs) + len(ddocs), "directories": 4, "open_faults": OPEN_FAULTS,
+                            "listdir_faults": LIST_FAULTS, "late_fault_calls": late, "requests": n_df_req,
+                            "answered_with_error_alone": n_df_err, "answered_with_success": n_df_ok,
+                            "without_reference": n_df_noref}
     cov["faults"] = {"cases": len(fcases), "requests": n_fault_req}
     cov["histories"] = {"histories": nhist, "requests": n_hist_req, "tree_states": len(fresh_states),
                         "fresh_process_references": sum(1 for x in fresh_out if x and x.get("ok"))}
@@ -885,7 +1008,8 @@ def replay(path):
         rep = json.load(f)
     if rep.get("kind") == "gplus-fault":
         res = impl_run([{"op": "c15_faults", "tree": rep["world"]["tree"], "config": rep["world"].get("config"),
-                         "cases": [{"fault": rep["fault"], "path": rep["fault_path"],
+                         "cases": [{"fault": rep["fault"], "path": rep["fault_path"], "nth": rep.get("fault_nth", 1),
+                                    "call": rep.get("fault_call", "open"),
                                     "requests": [{"data": rep["request_latin1"], "tls": rep["tls"]}]}]}])
         if not res[0]["ok"]:
             print(res[0]["err"])
